@@ -1035,13 +1035,23 @@ func (agg *aggregate) Process(ctx context.Context, man gdbi.Manager, in gdbi.InP
 					}
 				}
 
-				count := 0
-				for term, tcount := range fieldTermCounts {
-					if size <= 0 || count < int(size) {
-						//sTerm, _ := structpb.NewValue(term)
-						//fmt.Printf("Term: %s %s %d\n", a.Name, sTerm, tcount)
-						out <- &gdbi.BaseTraveler{Aggregation: &gdbi.Aggregate{Name: a.Name, Key: term, Value: float64(tcount)}}
-					}
+				terms := make([]interface{}, 0, len(fieldTermCounts))
+				for term := range fieldTermCounts {
+					terms = append(terms, term)
+				}
+				if size > 0 && len(terms) > int(size) {
+					// keep the `size` most frequent terms (ties: in the order of their text)
+					sort.Slice(terms, func(i, j int) bool {
+						ci, cj := fieldTermCounts[terms[i]], fieldTermCounts[terms[j]]
+						if ci != cj {
+							return ci > cj
+						}
+						return fmt.Sprint(terms[i]) < fmt.Sprint(terms[j])
+					})
+					terms = terms[:size]
+				}
+				for _, term := range terms {
+					out <- &gdbi.BaseTraveler{Aggregation: &gdbi.Aggregate{Name: a.Name, Key: term, Value: float64(fieldTermCounts[term])}}
 				}
 				return outErr
 			})
